@@ -24,7 +24,8 @@ Alphabet(fmt) ==
     [] fmt = "ssa" -> {"sec-info", "sec-styles", "sec-events", "sec-unknown", "info", "info-badnum", "comment", "junk", "colon-only", "format-style", "format-event",
                        "format-empty", "style", "style-short", "style-long", "style-badnum", "dialogue", "dialogue-short", "dialogue-badtime", "comment-event", "blank"}
     [] fmt = "ttml" -> {"p", "p-nobegin", "p-noend", "p-notimes", "p-badtime", "p-unkstyle", "p-unkregion", "p-span", "p-span-unkstyle", "p-br", "p-nested", "p-empty",
-                        "style", "style-unkparent", "style-selfparent", "region", "region-unkstyle", "meta", "junk-element", "style-1token"}
+                        "style", "style-unkparent", "style-selfparent", "region", "region-unkstyle", "meta", "junk-element", "style-1token",
+                        "style-1token-tb", "region-1token-tb", "p-1token-tb", "style-3token-tb"}
 
 RECURSIVE SeqsUpTo(_, _)
 SeqsUpTo(A, k) == IF k = 0 THEN {<<>>} ELSE LET S == SeqsUpTo(A, k - 1) IN S \cup {Append(s, a) : s \in {x \in S : Len(x) = k - 1}, a \in A}
